@@ -8,6 +8,11 @@ Require Import Fggs.Proofs.PTensor_sem Fggs.Proofs.PTensor_dense Fggs.Proofs.PTe
 Require Import Fggs.Proofs.PTensor_binary Fggs.Proofs.PTensor_xval Fggs.Proofs.PTensor_transpose Fggs.Proofs.PTensor_expand.
 Require Import Fggs.Proofs.Axis_antiunify_inv.
 Require Import Fggs.Proofs.Axis_complete_gen Fggs.Proofs.Axis_typed Fggs.Proofs.Axis_total Fggs.Proofs.Axis_fuel Fggs.Proofs.Axis_mgu Fggs.Proofs.Axis_rank Fggs.Proofs.Axis_typed_check Fggs.Proofs.Axis_typed_model.
+Require Import Fggs.Model.PTensorOps.
+Require Import Fggs.Proofs.PTensor_bcast Fggs.Proofs.PTensor_bcast_inv Fggs.Proofs.PTensor_bcast_thm Fggs.Proofs.PTensor_bcast_xval.
+Require Import Fggs.Proofs.Axis_clone Fggs.Proofs.PTensor_struct Fggs.Proofs.PTensor_getitem Fggs.Proofs.PTensor_reprinv.
+Require Import Fggs.Proofs.PTensor_storage Fggs.Proofs.PTEqual_freshen.
+Require Import Fggs.Model.PTensorOpsCheck Fggs.Proofs.Axis_subst Fggs.Proofs.PTensor_reshape Fggs.Proofs.PTensor_any Fggs.Proofs.PTensor_d2d.
 Local Open Scope nat_scope.
 
 (** * L2: the axis algebra *)
@@ -375,99 +380,301 @@ Theorem C06_maximum_default_old_refuted : maximum_default_old (XF 1) XNaN <> xma
 Proof. exact maximum_default_old_refuted. Qed.
 Print Assumptions C06_maximum_default_old_refuted.
 
-(** * binary operations through expansion / anti-unification
+(** * binary operations through expansion / anti-unification, WITH broadcasting
 
-    Full statement (open for operands that need broadcasting -- different ranks or a unit dimension
-    against a non-unit one):
-      forall t u, wf t -> wf u -> pt_binary op (op dt du) next t u = Ok (r, _) ->
-        forall idx in bounds, denote r idx = op (denote t (broadcast idx)) (denote u (broadcast idx)).
-    Proved below under the boolean guards [no_broadcast] (equal rank, no unit-against-non-unit
-    dimension) and [sizes_agree] (the anti-unification recorded parts of equal sizes, which is what
-    well-typedness of the two operands over a common shape gives): [_partial]. *)
-Theorem C06_binary_refines_partial : forall (V : Type) (op : V -> V -> V) dflt next (t u r : ptensor V) next' x idx,
+    For well-formed operands whose patterns are broadcast compatible ([bcast_ok]: at every position
+    aligned from the right the sizes agree or one side is [unitAxis]; operands of different rank are
+    padded with [unitAxis]) the result of [binary] is well formed, has the broadcast shape, and its
+    element at [idx] is the operation applied to the operands' elements at the broadcast indices
+    [bidx] (leading dimensions dropped, size-1 dimensions read at 0).  The former guards
+    [no_broadcast] and [sizes_agree] are gone: the recorded parts have equal sizes because
+    [antiunify] is only ever called on axes of equal size ([antiunify_szeq]). *)
+Theorem C06_binary_refines : forall (V : Type) (op : V -> V -> V) dflt next (t u r : ptensor V) next',
   wf V t -> wf V u -> vars_below V next t -> vars_below V next u ->
-  no_broadcast V t u = true ->
-  expansion V next t u = Ok x -> sizes_agree x = true ->
+  bcast_ok V t u = true ->
   pt_binary V op dflt next t u = Ok (r, next') ->
   dflt = op (default t) (default u) ->
-  length idx = length (vaxes t) ->
-  denote V r idx = op (denote V t idx) (denote V u idx).
-Proof. exact binary_refines. Qed.
-Print Assumptions C06_binary_refines_partial.
+  wf V r /\ bshape (shape V t) (shape V u) = Some (shape V r) /\
+  forall idx, in_bounds (shape V r) idx ->
+    denote V r idx = op (denote V t (bidx (shape V t) idx)) (denote V u (bidx (shape V u) idx)).
+Proof. exact binary_bcast_refines. Qed.
+Print Assumptions C06_binary_refines.
 
 (** all three code paths of [commutative] (add, mul, logaddexp, maximum, logical and/or) *)
-Theorem C06_commutative_refines_partial : forall (V : Type) (veqb : V -> V -> bool) (op : V -> V -> V) identity dflt next
-                            (t u r : ptensor V) next' x idx,
+Theorem C06_commutative_refines : forall (V : Type) (veqb : V -> V -> bool) (op : V -> V -> V) identity dflt next
+                            (t u r : ptensor V) next',
   (forall a b, veqb a b = true -> a = b) -> (forall a, op a identity = a) -> (forall a b, op a b = op b a) ->
   wf V t -> wf V u -> vars_below V next t -> vars_below V next u ->
-  no_broadcast V t u = true ->
-  expansion V next t u = Ok x -> sizes_agree x = true ->
+  bcast_ok V t u = true ->
   pt_commutative V veqb op identity dflt next t u = Ok (r, next') ->
   dflt = op (default t) (default u) ->
-  length idx = length (vaxes t) ->
-  denote V r idx = op (denote V t idx) (denote V u idx).
-Proof. exact commutative_refines. Qed.
-Print Assumptions C06_commutative_refines_partial.
+  wf V r /\ bshape (shape V t) (shape V u) = Some (shape V r) /\
+  forall idx, in_bounds (shape V r) idx ->
+    denote V r idx = op (denote V t (bidx (shape V t) idx)) (denote V u (bidx (shape V u) idx)).
+Proof. exact commutative_bcast_refines. Qed.
+Print Assumptions C06_commutative_refines.
 
 (** [sub] (and [div], whose reciprocal laws are hypotheses here) *)
-Theorem C06_sub_like_refines_partial : forall (V : Type) (veqb : V -> V -> bool) (op : V -> V -> V) (inv : V -> V) (op' : V -> V -> V)
-                         identity dflt next (t u r : ptensor V) next' x idx,
+Theorem C06_sub_like_refines : forall (V : Type) (veqb : V -> V -> bool) (op : V -> V -> V) (inv : V -> V) (op' : V -> V -> V)
+                         identity dflt next (t u r : ptensor V) next',
   (forall a b, veqb a b = true -> a = b) -> (forall a, op a identity = a) ->
   (forall a b, op' (inv b) a = op a b) -> (forall b, op identity b = inv b) ->
   wf V t -> wf V u -> vars_below V next t -> vars_below V next u ->
-  no_broadcast V t u = true ->
-  expansion V next t u = Ok x -> sizes_agree x = true ->
+  bcast_ok V t u = true ->
   pt_sub_like V veqb op inv op' identity dflt next t u = Ok (r, next') ->
   dflt = op (default t) (default u) ->
-  length idx = length (vaxes t) ->
-  denote V r idx = op (denote V t idx) (denote V u idx).
-Proof. exact sub_like_refines. Qed.
-Print Assumptions C06_sub_like_refines_partial.
+  wf V r /\ bshape (shape V t) (shape V u) = Some (shape V r) /\
+  forall idx, in_bounds (shape V r) idx ->
+    denote V r idx = op (denote V t (bidx (shape V t) idx)) (denote V u (bidx (shape V u) idx)).
+Proof. exact sub_like_bcast_refines. Qed.
+Print Assumptions C06_sub_like_refines.
 
-(** the laws hold on the concrete carrier: add, mul, maximum, sub *)
-Theorem C06_add_partial : forall next (t u r : pt) next' x idx,
-  wf xval t -> wf xval u -> vars_below xval next t -> vars_below xval next u ->
-  no_broadcast xval t u = true -> expansion xval next t u = Ok x -> sizes_agree x = true ->
-  length idx = length (vaxes t) ->
-  pt_commutative xval xeqb' xadd (XF 0) (xadd (default t) (default u)) next t u = Ok (r, next') ->
-  denote xval r idx = xadd (denote xval t idx) (denote xval u idx).
-Proof. exact add_refines. Qed.
-Print Assumptions C06_add_partial.
+(** the recorded parts always have equal sizes when [antiunify] starts from axes of equal size *)
+Theorem C06_antiunify_sizes_agree : forall fuel e f st g st',
+  numel e = numel f -> szeq (as_list st) -> antiunify fuel e f st = Ok (g, st') -> szeq (as_list st').
+Proof. exact (fun fuel => proj1 (antiunify_szeq fuel)). Qed.
+Print Assumptions C06_antiunify_sizes_agree.
 
-Theorem C06_mul_partial : forall next (t u r : pt) next' x idx,
-  wf xval t -> wf xval u -> vars_below xval next t -> vars_below xval next u ->
-  no_broadcast xval t u = true -> expansion xval next t u = Ok x -> sizes_agree x = true ->
-  length idx = length (vaxes t) ->
-  pt_commutative xval xeqb' xmul (XF 1) (xmul (default t) (default u)) next t u = Ok (r, next') ->
-  denote xval r idx = xmul (denote xval t idx) (denote xval u idx).
-Proof. exact mul_refines. Qed.
-Print Assumptions C06_mul_partial.
+(** the laws hold on the concrete carrier: add, mul, maximum, sub, div ([bcast_spec] is the
+    conclusion of the three theorems above) *)
+Theorem C06_add : forall next (t u r : pt) next',
+  wf xval t -> wf xval u -> vars_below xval next t -> vars_below xval next u -> bcast_ok xval t u = true ->
+  pt_commutative xval xeqb' xadd (XF 0) (xadd (default t) (default u)) next t u = Ok (r, next') -> bcast_spec t u r xadd.
+Proof. exact add_bcast. Qed.
+Print Assumptions C06_add.
 
-Theorem C06_maximum_partial : forall next (t u r : pt) next' x idx,
-  wf xval t -> wf xval u -> vars_below xval next t -> vars_below xval next u ->
-  no_broadcast xval t u = true -> expansion xval next t u = Ok x -> sizes_agree x = true ->
-  length idx = length (vaxes t) ->
-  pt_commutative xval xeqb' xmax XNInf (xmax (default t) (default u)) next t u = Ok (r, next') ->
-  denote xval r idx = xmax (denote xval t idx) (denote xval u idx).
-Proof. exact maximum_refines. Qed.
-Print Assumptions C06_maximum_partial.
+Theorem C06_mul : forall next (t u r : pt) next',
+  wf xval t -> wf xval u -> vars_below xval next t -> vars_below xval next u -> bcast_ok xval t u = true ->
+  pt_commutative xval xeqb' xmul (XF 1) (xmul (default t) (default u)) next t u = Ok (r, next') -> bcast_spec t u r xmul.
+Proof. exact mul_bcast. Qed.
+Print Assumptions C06_mul.
 
-Theorem C06_sub_partial : forall next (t u r : pt) next' x idx,
-  wf xval t -> wf xval u -> vars_below xval next t -> vars_below xval next u ->
-  no_broadcast xval t u = true -> expansion xval next t u = Ok x -> sizes_agree x = true ->
-  length idx = length (vaxes t) ->
-  pt_sub_like xval xeqb' xsub xneg xadd (XF 0) (xsub (default t) (default u)) next t u = Ok (r, next') ->
-  denote xval r idx = xsub (denote xval t idx) (denote xval u idx).
-Proof. exact sub_refines. Qed.
-Print Assumptions C06_sub_partial.
+Theorem C06_maximum : forall next (t u r : pt) next',
+  wf xval t -> wf xval u -> vars_below xval next t -> vars_below xval next u -> bcast_ok xval t u = true ->
+  pt_commutative xval xeqb' xmax XNInf (xmax (default t) (default u)) next t u = Ok (r, next') -> bcast_spec t u r xmax.
+Proof. exact maximum_bcast. Qed.
+Print Assumptions C06_maximum.
+
+Theorem C06_sub : forall next (t u r : pt) next',
+  wf xval t -> wf xval u -> vars_below xval next t -> vars_below xval next u -> bcast_ok xval t u = true ->
+  pt_sub_like xval xeqb' xsub xneg xadd (XF 0) (xsub (default t) (default u)) next t u = Ok (r, next') -> bcast_spec t u r xsub.
+Proof. exact sub_bcast. Qed.
+Print Assumptions C06_sub.
 
 (** div (fc474fc): the default is xdiv of the defaults for every divisor default (0 included); the
     reciprocal path [(1 / u) * t] equals [t / u] on the whole carrier *)
-Theorem C06_div_partial : forall next (t u r : pt) next' x idx,
-  wf xval t -> wf xval u -> vars_below xval next t -> vars_below xval next u ->
-  no_broadcast xval t u = true -> expansion xval next t u = Ok x -> sizes_agree x = true ->
-  length idx = length (vaxes t) ->
+Theorem C06_div : forall next (t u r : pt) next',
+  wf xval t -> wf xval u -> vars_below xval next t -> vars_below xval next u -> bcast_ok xval t u = true ->
   pt_sub_like xval xeqb' xdiv (fun b => xdiv (XF 1) b) xmul (XF 1) (xdiv (default t) (default u)) next t u = Ok (r, next') ->
-  denote xval r idx = xdiv (denote xval t idx) (denote xval u idx).
-Proof. exact div_refines. Qed.
-Print Assumptions C06_div_partial.
+  bcast_spec t u r xdiv.
+Proof. exact div_bcast. Qed.
+Print Assumptions C06_div.
+
+(** [bcast_ok] cannot be weakened to "the shapes broadcast" (F24, degenerate: a one-element sum type): a
+    size-1 dimension whose axis is [Sum 0 unitAxis 0] is not broadcast by [expansion], which tests
+    [e == unitAxis]; the result of [binary] then has shape [1] instead of [3] *)
+Theorem C06_expansion_nonunit_size1_refuted :
+  wf xval ex_one /\ wf xval ex_three /\ bshape (shape xval ex_one) (shape xval ex_three) = Some [3] /\
+  bcast_ok xval ex_one ex_three = false /\
+  exists r n, pt_binary xval xadd (XF 0) 2 ex_one ex_three = Ok (r, n) /\ shape xval r = [1].
+Proof. exact expansion_nonunit_size1_refuted. Qed.
+Print Assumptions C06_expansion_nonunit_size1_refuted.
+
+(** * operations that rebuild the pattern *)
+
+(** [__post_init__] (size-1 physical axes become [unitAxis], the storage is squeezed): always
+    succeeds, the result satisfies the representation invariant and denotes the same tensor *)
+Theorem C06_post_init_total : forall (V : Type) (t : ptensor V), exists t', post_init V t = Ok t'.
+Proof. exact post_init_total. Qed.
+Print Assumptions C06_post_init_total.
+
+Theorem C06_post_init : forall (V : Type) (t t' : ptensor V), wf V t -> post_init V t = Ok t' ->
+  repr_ok V t' /\ shape V t' = shape V t /\ default t' = default t /\
+  forall idx, length idx = length (vaxes t) -> denote V t' idx = denote V t idx.
+Proof. exact post_init_refines. Qed.
+Print Assumptions C06_post_init.
+
+(** [PatternedTensor(dense, default=d)] (also [from_int], [full]) *)
+Theorem C06_of_dense : forall (V : Type) shp (f : list nat -> V) d next,
+  let r := fst (pt_of_dense V shp f d next) in
+  repr_ok V r /\ shape V r = shp /\ default r = d /\
+  (forall k, In k (map fst (paxes r)) -> (next <= k)%positive /\ (k < snd (pt_of_dense V shp f d next))%positive) /\
+  forall idx, in_bounds shp idx -> denote V r idx = f idx.
+Proof. exact of_dense_refines. Qed.
+Print Assumptions C06_of_dense.
+
+Theorem C06_full : forall (V : Type) shp (d : V) next,
+  let r := fst (pt_full V shp d next) in
+  repr_ok V r /\ shape V r = shp /\ forall idx, in_bounds shp idx -> denote V r idx = d.
+Proof. exact full_refines. Qed.
+Print Assumptions C06_full.
+
+Theorem C06_default_to : forall (V : Type) (veqb : V -> V -> bool) d next (t : ptensor V), wf V t ->
+  let r := fst (pt_default_to V veqb d next t) in
+  wf V r /\ shape V r = shape V t /\ (no1 (paxes t) -> no1 (paxes r)) /\
+  (default r = d \/ veqb (default t) d = true /\ default r = default t) /\
+  forall idx, in_bounds (shape V t) idx -> denote V r idx = denote V t idx.
+Proof. exact default_to_refines. Qed.
+Print Assumptions C06_default_to.
+
+(** [__getitem__] with a full or partial tuple of integers: the sub-tensor; an in-range index never raises *)
+Theorem C06_getitem : forall (V : Type) vis next (t r : ptensor V) nx,
+  wf V t -> length vis <= length (vaxes t) ->
+  pt_getitem V vis next t = Ok (r, nx) ->
+  wf V r /\ shape V r = skipn (length vis) (shape V t) /\ default r = default t /\
+  forall idx', in_bounds (shape V r) idx' -> denote V r idx' = denote V t (vis ++ idx').
+Proof. exact getitem_refines. Qed.
+Print Assumptions C06_getitem.
+
+Theorem C06_getitem_total : forall (V : Type) vis next (t : ptensor V),
+  Forall2 lt vis (firstn (length vis) (shape V t)) -> exists r nx, pt_getitem V vis next t = Ok (r, nx).
+Proof. exact getitem_total. Qed.
+Print Assumptions C06_getitem_total.
+
+(** [clone] / [detach] / [freshen] *)
+Theorem C06_freshen : forall (V : Type) (t : ptensor V) next, wf V t ->
+  forall idx, length idx = length (vaxes t) -> denote V (fst (pt_freshen V next t)) idx = denote V t idx.
+Proof. exact pt_freshen_denote. Qed.
+Print Assumptions C06_freshen.
+
+(** [copy_]: afterwards the destination denotes what the source denotes; [to(dtype)] converts every element *)
+Theorem C06_copy : forall (V : Type) next (src : ptensor V), repr_ok V src ->
+  let dst := fst (pt_copy V next src) in
+  repr_ok V dst /\ shape V dst = shape V src /\ default dst = default src /\
+  (forall k, In k (map fst (paxes dst)) -> (next <= k)%positive) /\
+  forall idx, length idx = length (vaxes src) -> denote V dst idx = denote V src idx.
+Proof. exact copy_refines. Qed.
+Print Assumptions C06_copy.
+
+Theorem C06_to : forall (V : Type) (cvt : V -> V) (t : ptensor V) idx,
+  denote V (pt_to V cvt t) idx = cvt (denote V t idx).
+Proof. exact to_refines. Qed.
+Print Assumptions C06_to.
+
+(** * C06_repr_inv: the constructors preserve the representation invariant
+      ([repr_ok]: [wf] and no size-1 physical axis; equivalent to the monitor's oracle [repr_inv_b]) *)
+Theorem C06_repr_ok_iff_oracle : forall (V : Type) (t : ptensor V),
+  (repr_ok V t -> repr_inv_b (map snd (paxes t)) (paxes t) (vaxes t) = true) /\
+  (forall psize, repr_inv_b psize (paxes t) (vaxes t) = true -> repr_ok V t).
+Proof. exact (fun V t => conj (repr_ok_inv_b V t) (repr_inv_b_ok V t)). Qed.
+Print Assumptions C06_repr_ok_iff_oracle.
+
+Theorem C06_repr_inv_views : forall (V : Type) (t : ptensor V), repr_ok V t ->
+  (forall dims t', pt_permute V dims t = Some t' -> repr_ok V t') /\
+  (forall d0 d1 t', pt_transpose V d0 d1 t = Some t' -> repr_ok V t') /\
+  repr_ok V (pt_T V t) /\ (forall dim, repr_ok V (pt_unsqueeze V dim t)) /\ repr_ok V (pt_flatten V t) /\
+  (forall next, repr_ok V (fst (pt_freshen V next t))) /\ (forall cvt, repr_ok V (pt_to V cvt t)).
+Proof.
+  exact (fun V t R => conj (fun dims t' => permute_repr_ok V t t' dims R)
+        (conj (fun d0 d1 t' => transpose_repr_ok V t t' d0 d1 R)
+        (conj (T_repr_ok V t R) (conj (fun dim => unsqueeze_repr_ok V t dim R)
+        (conj (flatten_repr_ok V t R) (conj (fun next => freshen_repr_ok V t next R) (fun cvt => to_repr_ok V cvt t R))))))).
+Qed.
+Print Assumptions C06_repr_inv_views.
+
+Theorem C06_repr_inv_expand : forall (V : Type) (t t' t'' : ptensor V) sizes next next',
+  wf V t -> (forall e, In e (vaxes t) -> below next e) ->
+  pt_expand V sizes next t = Some (t', next') -> post_init V t' = Ok t'' -> repr_ok V t''.
+Proof. exact expand_repr_ok. Qed.
+Print Assumptions C06_repr_inv_expand.
+
+Theorem C06_eye : forall (V : Type) n (one zero : V) next,
+  let r := fst (pt_eye V n one zero next) in
+  repr_ok V r /\ shape V r = [n; n] /\
+  forall i j, i < n -> j < n -> denote V r [i; j] = if Nat.eqb i j then one else zero.
+Proof. exact eye_refines. Qed.
+Print Assumptions C06_eye.
+
+Theorem C06_from_int : forall (V : Type) (x d : V) next,
+  let r := fst (pt_of_dense V [] (fun _ => x) d next) in repr_ok V r /\ denote V r [] = x.
+Proof. exact from_int_repr_ok. Qed.
+Print Assumptions C06_from_int.
+
+(** the smart constructor [productAxis] establishes the invariants of its docstring (no one-factor
+    product, no product directly inside a product), hereditarily, and keeps size and meaning *)
+Theorem C06_productAxis_normal : forall l, forallb pnormal l = true -> pnormal (productAxis l) = true.
+Proof. exact productAxis_normal. Qed.
+Print Assumptions C06_productAxis_normal.
+
+Theorem C06_productAxis_sem : forall rho l,
+  eval rho (productAxis l) = evalL rho l /\ numel (productAxis l) = prodn l.
+Proof. exact productAxis_sem. Qed.
+Print Assumptions C06_productAxis_sem.
+
+(** * any(dim, keepdim): both code paths (the all-ones shortcut, by the pigeonhole principle; [physical.any] over
+    the axes that occur only in the reduced dimension, which index it bijectively when their product equals its
+    length).  Guard: the reduced dimension is not empty or the default is false -- [C06_any_empty_dim_refuted]
+    is the witness that the code differs from torch.any over an empty dimension with a true default. *)
+Theorem C06_any : forall (V : Type) (truth : V -> bool) (ofb : bool -> V), (forall b, truth (ofb b) = b) ->
+  forall dim keepdim (t r : ptensor V) ed,
+  wf V t -> nth_error (vaxes t) dim = Some ed ->
+  (0 < numel ed \/ truth (default t) = false) ->
+  pt_any V truth ofb dim keepdim t = Ok r ->
+  wf V r /\ default r = default t /\
+  forall idx', length idx' + 1 = length (vaxes t) ->
+    truth (denote V r (if keepdim then firstn dim idx' ++ [0] ++ skipn dim idx' else idx')) =
+    existsb (fun i => truth (denote V t (firstn dim idx' ++ i :: skipn dim idx'))) (seq 0 (numel ed)).
+Proof. exact any_refines. Qed.
+Print Assumptions C06_any.
+
+Theorem C06_any_empty_dim_refuted :
+  let t := mkPT (fun _ : list nat => false) [(1%positive, 0); (2%positive, 2)] [Phys 1 0; Sum 0 (Phys 2 2) 1] true in
+  exists r, pt_any bool (fun b => b) (fun b => b) 0 false t = Ok r /\ wf bool t /\
+            denote bool r [2] = true /\ existsb (fun i => denote bool t [i; 2]) (seq 0 (numel (Phys 1 0))) = false.
+Proof. exact any_empty_dim_refuted. Qed.
+Print Assumptions C06_any_empty_dim_refuted.
+
+(** * dim_to_dense(dim): the same dense tensor, well formed, and dimension [dim] is [unitAxis] or a physical axis
+    that occurs in no other dimension ([dense_dim]).  Covers the early return and the general path ([freshen] of
+    the other dimensions from the empty rename dict, [new_full], strided [copy_] through the low-level [project]).
+    Guard: a size-1 dimension is [unitAxis] (the [squeeze_(-1)] branch needs F24's one-element sum types). *)
+Theorem C06_dim_to_dense : forall (V : Type) dim next (t r : ptensor V) nx ed,
+  wf V t -> vars_below V next t -> nth_error (vaxes t) dim = Some ed ->
+  (is_unit ed = true \/ numel ed <> 1) ->
+  pt_dim_to_dense V dim next t = Ok (r, nx) ->
+  wf V r /\ shape V r = shape V t /\ default r = default t /\ dense_dim V r dim /\
+  forall idx, in_bounds (shape V t) idx -> denote V r idx = denote V t idx.
+Proof. exact dim_to_dense_refines. Qed.
+Print Assumptions C06_dim_to_dense.
+
+(** * reshape / view
+
+    Full statement: for every well-typed tensor, [reshape_or_view] either raises RuntimeError or returns
+    a tensor denoting the reshaped dense tensor, and it returns when the target merges adjacent dimensions
+    or inserts / removes size-1 dimensions.
+    Proved: (1) when the call returns (general branch, i.e. more than one element) the result denotes the
+    reshaped tensor, under explicit premises about the unifier computed inside the call -- completeness of
+    that call ([complete_for]: the conclusion of agent-UNIFY's [C_unify]), solved form ([solvable]:
+    [model_exists]), size preservation of the bindings ([size_preserving]: [wts_ty] + [ty_numel]) -- and
+    well-formedness of the result (checked by the run-time monitor); (2) the unification cannot return
+    False on a target with the right number of elements when it is complete for that call, because a
+    coincidence of the two products always exists (so RuntimeError is only raised together with the "index
+    type mismatch" warning, which typed targets -- adjacent merges, size-1 insertion / removal -- exclude
+    by agent-UNIFY's totality theorem).  The premises are discharged after merging that branch. *)
+Theorem C06_reshape_refines_partial : forall (V : Type) inferred s next (t r : ptensor V) nx',
+  wf V t -> vars_below V next t -> forallb pos_sizes (vaxes t) = true ->
+  (Nat.eqb (prodl' (shape V t)) (pnumel (paxes t)) && (prodl' (shape V t) <=? 1)) = false ->
+  pt_reshape V inferred s next t = Ok (r, nx') ->
+  wf V r ->
+  (forall s' goals nx st', (inferred = 0 -> s' = s) -> goal_axes s' next = (goals, nx) ->
+     unify (rs_fuel V goals t) (productAxis goals) (productAxis (vaxes t)) (ustate0 nx) = Ok (true, st') ->
+     (next <= nx)%positive -> (forall e, In e goals -> below nx e) ->
+     complete_for nx (productAxis goals) (productAxis (vaxes t)) (us_subst st') /\
+     solvable (us_subst st') /\
+     size_preserving (us_subst st') (goals ++ paxes_axes' (paxes t))) ->
+  prodl' (shape V r) = prodl' (shape V t) /\ default r = default t /\
+  forall idx', in_bounds (shape V r) idx' ->
+    denote V r idx' = denote V t (unflat (shape V t) (flat_offset (shape V r) idx')).
+Proof. exact reshape_refines_partial. Qed.
+Print Assumptions C06_reshape_refines_partial.
+
+Theorem C06_reshape_unify_succeeds : forall (V : Type) s next (t : ptensor V) goals nx b st',
+  wf V t -> vars_below V next t ->
+  prodl' (shape V t) = prodl' s -> (exists rho, Forall (inrange rho) (vaxes t)) ->
+  goal_axes s next = (goals, nx) ->
+  unify (rs_fuel V goals t) (productAxis goals) (productAxis (vaxes t)) (ustate0 nx) = Ok (b, st') ->
+  (forall rho, inrange rho (productAxis goals) -> inrange rho (productAxis (vaxes t)) ->
+     eval rho (productAxis goals) = eval rho (productAxis (vaxes t)) -> b = true) ->
+  b = true.
+Proof. exact reshape_unify_succeeds. Qed.
+Print Assumptions C06_reshape_unify_succeeds.
